@@ -27,7 +27,10 @@ Requests == <<
   <<Cur, S("m"), Par, S("m"), Cur>>,  \* ./m/../m/.
   <<Cur, S("m"), S("x"), Par>>        \* ./m/x/..
 >>
-SourcesFiles == { <<S("src"), Seg("main", "lua")>>, <<S("src"), Seg("init", "luau")>>, <<S("src"), S("sub"), Seg("init", "lua")>> }
+\* requiring files: an ordinary file, two module-folder files, and a file whose name only STARTS like one (`init.spec.luau`
+\* sits next to init.luau but is not a module-folder file: its relative requires are relative to its own directory)
+SourcesFiles == { <<S("src"), Seg("main", "lua")>>, <<S("src"), Seg("init", "luau")>>, <<S("src"), S("sub"), Seg("init", "lua")>>,
+                  <<S("src"), S("sub"), Seg("init.spec", "luau")>> }
 FolderNames == { S("init"), S("index"), Seg("mod", "luau") }
 Aliases == [x \in {"@pkg"} |-> <<S("lib")>>]
 Dirs == { <<>>, <<S("src")>>, <<S("lib")>>, <<S("src"), S("sub")>> }
